@@ -2,6 +2,7 @@ package interp
 
 import (
 	"fmt"
+	"os"
 	"go/token"
 	"go/types"
 	"sort"
@@ -452,6 +453,10 @@ func (e *Engine) Explore(cfg HarnessConfig) *HarnessResult {
 		s, err := smt.NewSolver(e.SolverKind, e.QueryTimeoutMs)
 		if err != nil {
 			panic(err)
+		}
+		if d := os.Getenv("VERIF_SMTLOG"); d != "" {
+			f, _ := os.Create(fmt.Sprintf("%s/%s-w%d.smt2", d, cfg.Name, wi))
+			s.Log = f
 		}
 		workers[wi] = &worker{id: wi, solver: s}
 	}
